@@ -68,6 +68,12 @@ def run(chk):
     # ---- tie + monitor for names
     maxlen = 4 if thorough else 3
     cases = [(k, s) for s in strings(maxlen) for k in KINDS]
+    # names that begin with (or are) a reserved prefix: the grammar treats `xmlns` / `xmlns:p` / `xml...` specially, every
+    # other name that merely starts with those letters is an ordinary name
+    for w in ("xmlns", "xml", "XML", "xmlnsxmlns", "x"):
+        for suf in ("", "a", "2", ".x", "-x", "_", "\u00b7", ":a", ":a:b", ":", "foo:bar", ":xml", "é", ":2"):
+            for k in KINDS:
+                cases.append((k, w + suf))
     lines = [lib.req("nameok", k, s) for k, s in cases]
     impl, model = lib.both(lines)
     spec = lib.run_lines(lib.model_driver(), [lib.req("nameok", SPEC_OF[k], s) for k, s in cases])
